@@ -1,13 +1,23 @@
 (* Lsm/RecoverImpossible.v — the root cause of known finding K2, machine-checked.
 
    lsmtk/src/tree/recover.rs rebuilds the levels of a reopened store from the METADATA of its files
-   alone (first key, last key, smallest and biggest timestamp; file size and setsum do not help).
-   There are two pairs of files, (A, B) and (A', B'), with pairwise IDENTICAL metadata, such that
-   every arrangement of two files into levels that is Ordered for the contents (A, B) is not Ordered
-   for (A', B') and vice versa: a reader must consult A before B, but B' before A'.  So no function
-   of the metadata - recover.rs or any replacement - yields correct reads for both stores. *)
+   alone: construct_adj_list orders two files only by their key ranges (first key, last key) and
+   their timestamp ranges (smallest, biggest timestamp); the setsum names a file, it says nothing
+   about order.  There are two REACHABLE stores (each the result of an accepted history from the
+   empty store: flushes, trivial moves, one merge), holding the files (A, B) and (A', B), such that
+   A and A' have identical key range, timestamp range and size (their ids differ, as content hashes
+   do), and every arrangement of two files into levels that is Ordered for the contents (A, B) is
+   not Ordered for (A', B) and vice versa: a reader must consult A before B, but B before A'.  So no
+   function of that metadata - recover.rs or any replacement - yields correct reads for both.
+
+   How the two stores come about.  B = {b@3, m@4, z@5} is one flushed memtable in both.
+   Store 1: {a@1} is flushed and moved to L1; B is flushed and moved past it (no shared key) to L2;
+   {m@7} is flushed and merged with {a@1} into A = {a@1, m@7} in L1, ABOVE B.
+   Store 2: {m@1} is flushed and moved to L2; B is flushed and moved to L1 (it cannot go further:
+   m); {a@7} is flushed, moved to L1 next to B, and merged with {m@1} into A' = {a@7, m@1} in L2,
+   BELOW B.  (The real store's own witness for K2 is corpus/C01/k2_recover.json.) *)
 From Coq Require Import NArith List Bool Lia Arith Permutation.
-From Blue Require Import Lsm.Model Lsm.KeyOrder Lsm.LoadProofs Lsm.Ordered Lsm.ListLemmas Lsm.SortLemmas Lsm.CompactProofs.
+From Blue Require Import Lsm.Model Lsm.KeyOrder Lsm.LoadProofs Lsm.Ordered Lsm.ListLemmas Lsm.SortLemmas Lsm.CompactProofs Lsm.History.
 Import ListNotations.
 Open Scope N_scope.
 
@@ -17,24 +27,43 @@ Arguments N.ltb : simpl never.
 Definition ka : key := [97].   (* "a" *)
 Definition kb : key := [98].
 Definition km : key := [109].  (* "m": the key both files hold *)
-Definition ky : key := [121].
 Definition kz : key := [122].
 
-(* store 1: A's version of m (timestamp 5) is newer than B's (3) *)
-Definition fA  : file := mkF 1 [mkE ka 1 (Some [1]); mkE km 5 (Some [55]); mkE ky 1 (Some [1])] 100.
-Definition fB  : file := mkF 2 [mkE kb 2 (Some [2]); mkE km 3 (Some [33]); mkE kz 4 (Some [4])] 100.
-(* store 2: the same metadata, but B''s version of m (4) is newer than A''s (1) *)
-Definition fA' : file := mkF 1 [mkE ka 1 (Some [1]); mkE km 1 (Some [11]); mkE ky 5 (Some [5])] 100.
-Definition fB' : file := mkF 2 [mkE kb 2 (Some [2]); mkE km 4 (Some [44]); mkE kz 3 (Some [3])] 100.
+(* store 1: A's version of m (timestamp 7) is newer than B's (4) *)
+Definition fA  : file := mkF 13 [mkE ka 1 (Some [1]); mkE km 7 (Some [77])] 100.
+Definition fB  : file := mkF 11 [mkE kb 3 (Some [2]); mkE km 4 (Some [44]); mkE kz 5 (Some [5])] 100.
+(* store 2: the same B; A' has A's key range, timestamp range and size, but its version of m (1)
+   is older than B's (4) *)
+Definition fA' : file := mkF 23 [mkE ka 7 (Some [1]); mkE km 1 (Some [11])] 100.
+Definition fB' : file := fB.
 
-Definition meta (f : file) := (fid f, first_key f, last_key f, smallest_ts f, biggest_ts f, fsize f).
+(* what recovery can see of a file that bears on order - NOT the id *)
+Definition meta (f : file) := (first_key f, last_key f, smallest_ts f, biggest_ts f, fsize f).
 
-Lemma same_metadata : meta fA = meta fA' /\ meta fB = meta fB' /\
+Lemma same_metadata : meta fA = meta fA' /\ meta fB = meta fB' /\ fid fA <> fid fA' /\
   wf_fileb fA = true /\ wf_fileb fB = true /\ wf_fileb fA' = true /\ wf_fileb fB' = true.
-Proof. vm_compute. repeat split; reflexivity. Qed.
+Proof. vm_compute. repeat split; try reflexivity. discriminate. Qed.
+
+(* ---- both stores are reachable ---- *)
+Definition k2_ops : list op :=
+  [ OWrite [(ka, Some [1])]; OFlush 10 100;
+    OCompact (mkC 0 1 ka ka [10]) [mkF 10 [mkE ka 1 (Some [1])] 100];
+    OWrite [(kb, Some [2])]; OWrite [(km, Some [44])]; OWrite [(kz, Some [5])]; OFlush 11 100;
+    OCompact (mkC 0 1 kb kz [11]) [fB]; OCompact (mkC 1 2 kb kz [11]) [fB];
+    OWrite [(km, Some [77])]; OFlush 12 100;
+    OCompact (mkC 0 1 ka km [12; 10]) [fA] ].
+Definition k2_ops' : list op :=
+  [ OWrite [(km, Some [11])]; OFlush 20 100;
+    OCompact (mkC 0 1 km km [20]) [mkF 20 [mkE km 1 (Some [11])] 100];
+    OCompact (mkC 1 2 km km [20]) [mkF 20 [mkE km 1 (Some [11])] 100];
+    OWrite [(kb, Some [2])]; OWrite [(km, Some [44])]; OWrite [(kz, Some [5])]; OFlush 11 100;
+    OCompact (mkC 0 1 kb kz [11]) [fB];
+    OWrite [(ka, Some [1])]; OFlush 22 100;
+    OCompact (mkC 0 1 ka ka [22]) [mkF 22 [mkE ka 7 (Some [1])] 100];
+    OCompact (mkC 1 2 ka km [22; 20]) [fA'] ].
 
 (* replace the contents of the two files, keeping every position *)
-Definition swap_file (f : file) : file := if fid f =? 1 then fA' else if fid f =? 2 then fB' else f.
+Definition swap_file (f : file) : file := if fid f =? fid fA then fA' else if fid f =? fid fB then fB' else f.
 Definition swap_contents (v : version) : version := map (map swap_file) v.
 
 Lemma swap_biggest f : f = fA \/ f = fB -> biggest_ts (swap_file f) = biggest_ts f.
@@ -46,7 +75,7 @@ Lemma insert_by_map (g : file -> file) x l :
 Proof.
   induction l as [|y r IH]; intros H; cbn [insert_by map]; [reflexivity|].
   rewrite (H y) by (right; now left). rewrite (H x) by now left.
-  destruct (biggest_ts y <=? biggest_ts x); cbn [map]; [|reflexivity].
+  destruct (biggest_ts y <? biggest_ts x); cbn [map]; [|reflexivity].
   f_equal. apply IH. intros z [<-|Hz]; apply H; [now left|right; now right].
 Qed.
 
@@ -109,8 +138,8 @@ Proof.
     assert (ets (mkE km 4 (Some [44])) < ets (mkE km 1 (Some [11]))) by (apply C; vm_compute; auto).
     cbn in H. lia.
   - (* B is consulted before A: wrong for the original contents *)
-    pose proof (desc_two _ l1 fB l2 fA l3 (mkE km 3 (Some [33])) (mkE km 5 (Some [55])) O1) as C.
-    assert (ets (mkE km 5 (Some [55])) < ets (mkE km 3 (Some [33]))) by (apply C; vm_compute; auto).
+    pose proof (desc_two _ l1 fB l2 fA l3 (mkE km 4 (Some [44])) (mkE km 7 (Some [77])) O1) as C.
+    assert (ets (mkE km 7 (Some [77])) < ets (mkE km 4 (Some [44]))) by (apply C; vm_compute; auto).
     cbn in H. lia.
 Qed.
 
@@ -120,4 +149,10 @@ Definition vBA' : version := [[]; [fB']; [fA']] ++ repeat [] 13.
 Lemma each_has_a_correct_arrangement :
   wf_versionb vAB = true /\ orderedb (mkS [] vAB 9) = true /\
   wf_versionb vBA' = true /\ orderedb (mkS [] vBA' 9) = true.
+Proof. vm_compute. repeat split; reflexivity. Qed.
+
+(* ... and each is what an accepted history from the empty store leaves behind *)
+Lemma both_reachable :
+  all_accepted (init_at 0) k2_ops = true /\ ver (run (init_at 0) k2_ops) = vAB /\
+  all_accepted (init_at 0) k2_ops' = true /\ ver (run (init_at 0) k2_ops') = vBA'.
 Proof. vm_compute. repeat split; reflexivity. Qed.
